@@ -197,6 +197,10 @@ class Flow:
                 if cur is None or (isinstance(cur, ast.Name) and cur.id.startswith(("P_", "BUF_"))):
                     # in-place update of an array handed in / allocated here
                     self.emit("store", st, target=self.resolve(st.target), value=val, op=st.op)
+                elif isinstance(cur, ast.Subscript) and isinstance(cur.value, ast.Name) and cur.value.id.startswith(("P_", "BUF_")) and \
+                        any(isinstance(i_, ast.Slice) for i_ in (cur.slice.elts if isinstance(cur.slice, ast.Tuple) else [cur.slice])):
+                    # the name holds a VIEW of such an array (a subscript with a slice component): `view op= v` updates the array in place
+                    self.emit("store", st, target=_clone(cur), value=val, op=st.op)
                 else:
                     self.env[st.target.id] = ast.BinOp(left=_clone(cur), op=st.op, right=val)
                     self.emit("rebind", st, name=st.target.id, value=self.env[st.target.id], op=st.op)
@@ -1272,7 +1276,7 @@ def scatter_model(chk):
     fn_s, unstructured = structured(fn)
     fl = Flow(fn_s, arrays={"self._shifts", "self._coeffs"}).run()
     m = {"fn": fn, "flow": fl, "contribs": [], "clears": [], "scales": [], "other_stores": [], "why": None, "buffered": [], "folds": [],
-         "fold_report": None}
+         "fold_report": None, "assigns": []}
     cache["scatter"] = m
     if unstructured:
         m["why"] = unstructured
@@ -1280,10 +1284,22 @@ def scatter_model(chk):
         m["why"] = "statement outside the model: " + fl.opaque[0]
     interp = {}      # id(frame) -> (event, resolved source row expr)
     evals = {}       # buffer symbol -> (event, point expr) of the latest eval_vector in the same stencil frame
+    _UF = {"np.multiply": ast.Mult, "np.add": ast.Add, "np.subtract": ast.Sub, "np.divide": ast.Div, "np.true_divide": ast.Div}
     for ev in fl.events:
         if ev.kind == "call":
             c = ev.value
             f = src(c.func)
+            # `np.<binary ufunc>(a, b, out=T)` with T a view of the result is the plain store `T = a op b` (T does not occur in a, b)
+            if f in _UF and len(c.args) == 2 and [k.arg for k in c.keywords] == ["out"]:
+                t_ = c.keywords[0].value
+                b_ = t_
+                while isinstance(b_, ast.Subscript):
+                    b_ = b_.value
+                if isinstance(b_, ast.Name) and b_.id == "P_der" and isinstance(t_, ast.Subscript) \
+                        and not any(isinstance(x, ast.Name) and x.id == "P_der" for a_ in c.args for x in ast.walk(a_)):
+                    ev.kind, ev.target, ev.op = "store", t_, None
+                    ev.value = ast.BinOp(left=c.args[0], op=_UF[f](), right=c.args[1])
+        if ev.kind == "call":
             if f == "self._interpolator.compute_interpolant" and len(c.args) == 2 and src(c.args[1]) == "self._thetaSpline":
                 interp[id(ev.frames[-1]) if ev.frames else 0] = (ev, c.args[0])
             elif f == "self._thetaSpline.eval_vector" and len(c.args) >= 2 and isinstance(c.args[1], ast.Name):
@@ -1396,6 +1412,9 @@ def scatter_model(chk):
                     else:
                         c.problems.append("the accumulated value is not (weight) x (buffer filled by eval_vector in the same stencil iteration)")
                 m["contribs"].append(c)
+            elif in_loop and op is None and items and all(full(i) for i in items[1:]) and not full(items[0]):
+                # a row of the result is ASSIGNED inside the loops (no accumulation): judged by regimes (F7-accumulation)
+                m["assigns"].append(ev)
             else:
                 m["other_stores"].append(ev)
                 m["why"] = m["why"] or f"store `{src(ev.node)[:60]}` into the result not modelled"
@@ -1678,6 +1697,9 @@ def regimes(chk):
                "result row (k - s_j) mod nz" if okf else "; ".join(dict.fromkeys(fbad + funknown)), file=U.ADV, func=q)
         if fbad:
             return m
+    if m["assigns"] and not m["why"]:
+        _assigned_rows(chk, m, q)
+        return None
     if m["why"] or not cs or any(c.row is None for c in cs):
         chk.ob("F7-regimes", fn, "source rows tile [0, nz)", None,
                "scatter not followed: " + (m["why"] or ("no accumulation into the result found" if not cs else
@@ -1813,6 +1835,103 @@ def regimes(chk):
                                                   "target rows are taken modulo nz except where row - shift stays inside [-nz, nz)"))
            if ok else "; ".join(dict.fromkeys(bad + problems)), file=U.ADV, func=q)
     return m
+
+
+def _assigned_one(m, ev):
+    """checks (a)-(c) of _assigned_rows for one assigning statement -> (reason why not established | None, which entries assign)"""
+    why = None
+    fr = ev.frames
+    sten_like = lambda f: f.kind == "elems" or (f.kind == "range" and src(f.hi) in SIZES and src(f.lo) == "0")
+    if len(fr) != 2 or fr[0].kind != "range" or sten_like(fr[0]) or not sten_like(fr[1]):
+        why = "the loops around it are not a row loop with the stencil loop inside"
+    sibs = [c for c in m["contribs"] if len(c.ev.frames) == 2 and all(a is b for a, b in zip(c.ev.frames, fr))
+            and src(c.target) == src((ev.target.slice.elts[0] if isinstance(ev.target.slice, ast.Tuple) else ev.target.slice))]
+    if why is None and not sibs and ev.guards:
+        why = "no accumulation onto the same target row in the same loops: the role of the assigned row is not established"
+    if why is None:
+        # the claim is about a SCATTER: the assigned row must move with the source row AND with the stencil entry (in a gather - one
+        # target row per iteration of the row loop - the first entry legitimately initialises the row)
+        trow = ev.target.slice.elts[0] if isinstance(ev.target.slice, ast.Tuple) else ev.target.slice
+        names = {x.id for x in ast.walk(trow) if isinstance(x, ast.Name)}
+        if fr[0].sym not in names or fr[1].sym not in names:
+            why = "the assigned row does not depend on both the row counter and the stencil entry: not the scatter the claim is about"
+        else:
+            try:
+                core, _wr = strip_mod(to_sym(trow))
+                k_, j_ = Symbol(fr[0].sym, integer=True), Symbol(fr[1].sym, integer=True)
+                if sp.simplify(sp.diff(core, k_)) not in (1, -1) or not core.has(SHIFT):
+                    why = f"the assigned row {core} is not (row -/+ shift_j) + const"
+            except Exception as e:          # noqa: BLE001 - undecided
+                why = f"the assigned row is not extractable: {e}"
+    sel = None
+    if why is None:
+        jsym = fr[1].sym
+        if not ev.guards:
+            sel = "every stencil entry"
+        elif len(ev.guards) == 1:
+            test, pol = ev.guards[0]
+            if isinstance(test, ast.Compare) and len(test.ops) == 1 and isinstance(test.left, ast.Name) and test.left.id == jsym \
+                    and isinstance(test.comparators[0], ast.Constant) and test.comparators[0].value == 0 \
+                    and ((isinstance(test.ops[0], ast.Eq) and pol) or (isinstance(test.ops[0], ast.NotEq) and not pol)):
+                sel = "the first stencil entry"
+        if sel is None:
+            why = "which stencil entries take the assigning path is not read from its guard"
+    return why, sel
+
+
+def _assigned_rows(chk, m, q):
+    """a stencil entry ASSIGNS its contribution to the target row instead of accumulating it.
+    Claim: with the row loop outside and the stencil loop inside, a target row t receives entry j from source row (t + s_j) mod nz.  Let
+    j0 be an assigning entry and j1 another entry, d = s_j1 - s_j0 != 0 (mod nz).  The assignment is harmless only if, for EVERY t,
+    source row (t + s_j0) is processed before source row (t + s_j0 + d): u before u + d for every u modulo nz, which no order of the rows
+    satisfies (u, u+d, u+2d, ... returns to u).  So for some target row the contribution of j1 is stored first and discarded by the
+    assignment of j0, whatever the order of the row loops.
+    ASSUMPTIONS checked here (else UNDECIDED): (a) the assignment sits in a row loop with the stencil loop INSIDE it (with the stencil loop
+    outside, its first entry legitimately initialises every row); (b) its target row is, textually, the target row of an accumulation in
+    the same two loops (the periodic scatter row - shift_j); (c) it runs for the first stencil entry (guard `j == 0`) or for all of them;
+    assumed from the property: the stencil has at least two entries with different shifts and nz exceeds their difference."""
+    label = "every stencil entry is accumulated onto the target row"
+    facts = stencil_facts(chk)
+    verdicts = [_assigned_one(m, ev_) for ev_ in m["assigns"]]
+    ev = m["assigns"][0]
+    why, sel = next(((w_, s_) for w_, s_ in verdicts if w_ is not None), (None, verdicts[0][1]))
+    if why is None:
+        # (d) EVERY source row goes through an assigning nest: the row loops of the assignments are those of all accumulations and
+        # their ranges chain from 0 to nz (the argument `u before u + d for every u modulo nz` needs every residue u)
+        rows = []
+        for ev_ in m["assigns"]:
+            if not any(ev_.frames[0] is f for f in rows):
+                rows.append(ev_.frames[0])
+        if any(c.row is None or not any(c.row is f for f in rows) for c in m["contribs"]):
+            why = "some row loops accumulate without an assigning entry: the order argument does not cover every source row"
+        else:
+            try:
+                left_, cur_ = [(to_sym(f.lo), to_sym(f.hi)) for f in rows], Integer(0)
+
+                def _zero(d):
+                    d2 = concretise(sp.simplify(d), facts)
+                    return sp.simplify(d) == 0 or all(sp.simplify(x) == 0 for x in parities(d2))
+                while left_:
+                    nxt = [b_ for b_ in left_ if _zero(b_[0] - cur_)]
+                    if len(nxt) != 1:
+                        break
+                    cur_ = nxt[0][1]
+                    left_.remove(nxt[0])
+                if left_ or not _zero(cur_ - NZ):
+                    why = "the row ranges of the assigning loops are not established to tile [0, nz)"
+            except Exception as e:          # noqa: BLE001 - undecided
+                why = f"row ranges of the assigning loops not extractable: {e}"
+    if why is not None:
+        chk.ob("F7-accumulation", ev.node, label, None, f"`{src(ev.node)[:70]}` assigns a row of the result inside the loops; {why}",
+               file=U.ADV, func=q)
+        return
+    chk.ob("F7-accumulation", ev.node, label, False,
+           f"`{src(ev.node).replace('P_', '')[:70]}` ASSIGNS the contribution of {sel} to the target row (row - shift) mod nz instead of adding it. Target "
+           "row t receives entry j from source row (t + s_j) mod nz; the assignment is harmless only if the assigning entry reaches every t "
+           "before all other entries, i.e. source row u is processed before row u + d (d = difference of two shifts) for every u modulo nz - "
+           "impossible for a periodic direction, whatever the order of the row loops: at the periodic seam other entries reach the row first "
+           "(accumulating onto whatever the caller left in the array) and the wrapped source's assignment then discards them. The first / last "
+           "lines of the gradient lose stencil terms", file=U.ADV, func=q)
 
 
 def _bz_indices(m):
@@ -2087,8 +2206,12 @@ def gradient_formula(chk, m):
                "der[k] = sum_j c_j * (theta-spline of row k + s_j)(theta shifted along the field line by s_j cells): shift, "
                "coefficient and angle column carry the same j" if ok else "; ".join(bad + unknown), file=U.ADV, func=q)
     # cleared before accumulation
-    first = min((c.ev.node.lineno for c in m["contribs"]), default=None)
-    clears = [(ev, v) for ev, v in m["clears"] if first is None or ev.node.lineno < first]
+    # program order = order of the events of the flow model (never line numbers: the statements of a helper written back in place all
+    # carry the position of the call they replace)
+    _ord = {id(e_): k_ for k_, e_ in enumerate(m["flow"].events)}
+    when = lambda e_: _ord.get(id(e_), 10 ** 9)
+    first = min((when(c.ev) for c in m["contribs"]), default=None)
+    clears = [(ev, v) for ev, v in m["clears"] if first is None or when(ev) < first]
     ok0 = bad0 = None
     if clears and isinstance(clears[-1][1], ast.Constant) and clears[-1][1].value == 0 and not clears[-1][0].guards:
         ok0 = True
@@ -2108,9 +2231,9 @@ def gradient_formula(chk, m):
             ni.hooks[src(nd)] = Symbol("z0", real=True) + nd.slice.value * DZ
     ni.run(init.body)
     dzv, inv = ni.env.get("self._dz"), ni.env.get("self._inv_dz")
-    last = max((c.ev.node.lineno for c in m["contribs"]), default=0)
-    after = [(ev, v, op) for ev, v, op in m["scales"] if ev.node.lineno > last]
-    before = [(ev, v, op) for ev, v, op in m["scales"] if ev.node.lineno <= last]
+    last = max((when(c.ev) for c in m["contribs"]), default=-1)
+    after = [(ev, v, op) for ev, v, op in m["scales"] if when(ev) > last]
+    before = [(ev, v, op) for ev, v, op in m["scales"] if when(ev) <= last]
     bad, unknown = [], []
     total = Integer(1)
     try:
@@ -2209,6 +2332,10 @@ def gradient_formula(chk, m):
            "the precomputed b_z, angle and coefficient tables are only read" if not muts else
            "; ".join(d for _, d in muts) + " - the stored table is changed by every call, so later calls (other radii, later time "
            "steps) are scaled again", file=U.ADV, func=q)
+    # possible writes the engine could not establish (alias liveness, view/copy of the value not known): undecided, same rule
+    for node, desc, why in getattr(muts, "undecided", ()):
+        chk.ob("G2-no-shared-mutation", node, "parallel_gradient vs precomputed tables", None, f"{desc} - not established: {why}",
+               file=U.ADV, func=q)
 
 
 class _Quiet:
